@@ -6,7 +6,7 @@ import common
 from common import cq_bytes, cq_list
 
 THEOREMS = ["c02_fatal_origin", "c02_framework", "c02_plain", "c02_walker_safe", "c02_walker_unchecked_refuted",
-            "c02_gentime_safe", "c02_gentime_guard_needed", "c02_bodies_total", "c02_gentime_range", "c02_dn_printable", "c02_crl_lints_range", "c02_crl_entry_order", "c02_qc_assert_safe", "c02_qc_guard_needed"]
+            "c02_gentime_safe", "c02_gentime_guard_needed", "c02_bodies_total", "c02_gentime_range", "c02_dn_printable", "c02_crl_lints_range", "c02_crl_entry_order", "c02_qc_assert_safe", "c02_qc_guard_needed", "c02_arpa_indexing_safe"]
 
 BODIES_HEADER = """From ZL Require Import Base.Bytes Base.Corr Kernels.Bodies Kernels.Crl Kernels.QcStatem.
 From Coq Require Import ZArith.
